@@ -39,7 +39,8 @@
 //     holding the mutex; after a loop_until_terminate() call has returned: a job picked, a job body started,
 //     done() changed;
 //   * the run came to rest with a thread blocked in a condition wait whose predicate holds
-//     (lost wake-up / stranded waiter) or blocked on the mutex (deadlock);
+//     (lost wake-up / stranded waiter) or blocked on the mutex (deadlock), or with a terminate() call
+//     (from a job or an outside thread) still blocked in a condition wait: terminate() never waits;
 //   * at the normal end: a job ran more than once, done() != finished jobs.
 #include <algorithm>
 #include <cstring>
@@ -232,9 +233,15 @@ static void do_call(const Act& a) {
         rs->cur_enq.erase(me);
         break;
     }
-    case 't':
+    case 't': {
+        // terminate() sets the flag and notifies; a call that is still blocked when the run is at rest never returns
+        bool had = rs->in_call.count(me) != 0;
+        char prev = had ? rs->in_call[me] : '?';
+        rs->in_call[me] = 't';
         rs->pool->terminate();
+        if (had) rs->in_call[me] = prev; else rs->in_call.erase(me);
         break;
+    }
     case 'd': {
         long long v = static_cast<long long>(rs->pool->done());
         if (S.aborting()) break;
@@ -330,6 +337,11 @@ static void on_stuck(const std::vector<detsched::Blocked>& blocked) {
                          std::to_string(term) + " queued=" + std::to_string(p.jobs_.size()));
         } else if (b.op == Op::Wake && b.obj == &p.cv_finished_) {
             char c = rs->in_call.count(b.tid) ? rs->in_call[b.tid] : '?';
+            if (c == 't') {
+                rs->viol("deadlock: terminate() called by thread " + std::to_string(b.tid) + " is blocked for good (busy=" +
+                         std::to_string(busy) + " terminate=" + std::to_string(term) + "); terminate() must return without waiting for the caller's own job");
+                continue;
+            }
             bool pred = (c == 'w') ? (qempty && busy == 0) : (term && busy == 0);
             if (pred)
                 rs->viol(std::string("stranded waiter: thread ") + std::to_string(b.tid) + " blocked in " +
